@@ -33,7 +33,7 @@ STUB = ['AXI master', 'AXI slave', 'kernel controller (start/reset/done/load)']
 ASSUMPTIONS = ['"accepted beat" is taken in the adapter\'s own sense: VALID & READY & active in the same cycle',
                'done is only pulsed after a beat was transferred in the current activation',
                'TDATA is only checked against load pulses given while the adapter was active']
-PROBES = ['register_wider_than_64', 'beat', 'backpressure_hold', 'reset_in_beat_cycle', 'reset_while_pending', 'done_after_transfer', 'restart_active',
+PROBES = ['adapter_added_late_in_subblock', 'reg_in_from_other_clock_domain', 'register_wider_than_64', 'beat', 'backpressure_hold', 'reset_in_beat_cycle', 'reset_while_pending', 'done_after_transfer', 'restart_active',
           'restart_inactive', 'load_while_pending', 'load_in_beat_cycle', 'back_to_back', 'kernel_done']
 
 
@@ -54,6 +54,10 @@ def gen(rs, tier, index):
         scn['sw'] = rng.choice([128, 512])
         scn['w'] = rng.choice([64, 65, 96, 128, rng.randint(1, scn['sw']), scn['sw']])
         scn['w'] = min(scn['w'], scn['sw'])
+    # late_container: the adapter is instantiated inside an existing sub-block after the simulator was fetched (and ran)
+    scn['late_container'] = rng.random() < 0.2 and mode != 'kernel'
+    # dut_domain (register-to-stream): reg_in comes straight from a register that sits in a clock domain of its own
+    scn['dut_domain'] = rng.random() < 0.25 and mode == 'r2a'
     if mode == 'kernel':
         scn['k'] = rng.randint(1, 3)
         scn['m'] = rng.randint(1, 2)
@@ -167,6 +171,29 @@ def pulses(crng, scn, mstate):
     return start, reset, done
 
 
+class _Kernel(py4hw.Logic):
+    """an existing sub-block (a kernel wrapper) that already contains something"""
+
+    def __init__(self, parent, name):
+        super().__init__(parent, name)
+        t = self.wire('tie', 1)
+        py4hw.Constant(self, 'tie', 0, t)
+        py4hw.Buf(self, 'keep', t, self.wire('kept', 1))
+
+
+def container(hw, scn, st):
+    """where the adapter is instantiated: the system itself, or - late_container - an existing sub-block of a system whose
+    simulator has already been fetched and has run"""
+    if not scn.get('late_container'):
+        return hw
+    k = _Kernel(hw, 'kernel')
+    with quiet():
+        hw.getSimulator().clk(2)
+    st.fault('late_add')
+    st.probe('adapter_added_late_in_subblock')
+    return k
+
+
 def run_a2r(scn, log, st):
     W = scn['w']
     hw = py4hw.HWSystem()
@@ -176,7 +203,7 @@ def run_a2r(scn, log, st):
     if W > 64:
         st.probe('register_wider_than_64')
     q, loaded, active = hw.wire('q', W), hw.wire('loaded'), hw.wire('active')
-    Axi2Reg(hw, 'dut', start, reset, done, s, q, loaded, active)
+    Axi2Reg(container(hw, scn, st), 'dut', start, reset, done, s, q, loaded, active)
     with quiet():
         sim = hw.getSimulator()
     crng, prng = random.Random(scn['ctl_seed']), random.Random(scn['peer_seed'])
@@ -256,7 +283,13 @@ def run_r2a(scn, log, st):
     if W > 64:
         st.probe('register_wider_than_64')
     sent, active = hw.wire('sent'), hw.wire('active')
-    Reg2Axi(hw, 'dut', start, reset, done, load, reg_in, s, sent, active)
+    reg_src = reg_in
+    if scn.get('dut_domain'):
+        reg_src = hw.wire('reg_src', W)
+        dr = py4hw.Reg(hw, 'dutreg', reg_src, reg_in)
+        dr.clockDriver = py4hw.ClockDriver('dutclk', base=hw.clockDriver)
+        st.probe('reg_in_from_other_clock_domain')
+    Reg2Axi(container(hw, scn, st), 'dut', start, reset, done, load, reg_in, s, sent, active)
     with quiet():
         sim = hw.getSimulator()
     crng, prng = random.Random(scn['ctl_seed']), random.Random(scn['peer_seed'])
@@ -279,10 +312,10 @@ def run_r2a(scn, log, st):
             a_ready = 1 if prng.random() < scn['p_ready'] else 0
             if scn['stall_len'] and prng.random() < 0.08:
                 stall = prng.randint(1, scn['stall_len'])
-        for w, v in ((start, a_start), (reset, a_reset), (done, a_done), (load, a_load), (reg_in, a_reg), (s.tready, a_ready)):
+        for w, v in ((start, a_start), (reset, a_reset), (done, a_done), (load, a_load), (reg_src, a_reg), (s.tready, a_ready)):
             w.put(v)
         sim.propagateAll()
-        o = {'start': a_start, 'reset': a_reset, 'done': a_done, 'load': a_load, 'reg_in': a_reg, 'tready': a_ready,
+        o = {'start': a_start, 'reset': a_reset, 'done': a_done, 'load': a_load, 'reg_in': reg_in.get(), 'tready': a_ready,
              'tvalid': s.tvalid.get(), 'tdata': s.tdata.get(), 'tlast': s.tlast.get(), 'tkeep': s.tkeep.get(),
              'sent': sent.get(), 'active': active.get()}
         h.append(o)
